@@ -282,8 +282,10 @@ Qed.
 End WithFloatFunctions.
 
 (* ================================================================== Part 3: stmt.go *)
-Definition rep_cmap (m : option (list (bytes * coerce_kind))) : option (list (bytes * gx_CoerceFunc)) :=
-  option_map (map (fun p => (fst p, rep_ck (snd p)))) m.
+(* the coercion map: a pair without function (None) is the nil CoerceFunc stored in the Go map *)
+Definition rep_centry (p : bytes * option coerce_kind) : bytes * option gx_CoerceFunc := (fst p, option_map rep_ck (snd p)).
+Definition rep_cmap (m : option (list (bytes * option coerce_kind))) : option (list (bytes * option gx_CoerceFunc)) :=
+  option_map (map rep_centry) m.
 (* the configuration: Query is not part of the model (it is not used by the translated functions) *)
 Definition rep_conf (query : bytes) (conf : sql_config) : gx_SQLConfig :=
   gx_mk_SQLConfig query (q_incr conf) (q_table conf) (q_escape conf) (rep_cmap (q_coerce conf)) (q_precision conf).
@@ -350,36 +352,49 @@ Qed.
 (* ================================================================== Part 4: reader.go *)
 
 (* ---- maps as association lists: conf.CoerceMap[name] *)
-Lemma gx_assoc_lookup_eq (m : list (bytes * coerce_kind)) (name : bytes) :
-  gx_assoc_lookup (map (fun p => (fst p, rep_ck (snd p))) m) name = option_map rep_ck (coerce_lookup m name).
+Lemma gx_assoc_lookup_eq (m : list (bytes * option coerce_kind)) (name : bytes) :
+  gx_assoc_lookup (map rep_centry m) name = option_map (option_map rep_ck) (coerce_find m name).
 Proof.
-  induction m as [|[n k] m IH]; [reflexivity|]. cbn [map gx_assoc_lookup coerce_lookup fst snd].
-  rewrite IH. destruct (coerce_lookup m name); cbn [option_map]; [reflexivity|].
+  induction m as [|[n k] m IH]; [reflexivity|]. cbn [map gx_assoc_lookup coerce_find rep_centry fst snd].
+  rewrite IH. destruct (coerce_find m name); cbn [option_map]; [reflexivity|].
   destruct (bytes_eqb n name); reflexivity.
 Qed.
 
-Lemma gx_map_lookup_eq (m : option (list (bytes * coerce_kind))) (name : bytes) :
-  gx_map_lookup (rep_cmap m) name
-  = option_map rep_ck (match m with Some l => coerce_lookup l name | None => None end).
-Proof. destruct m as [l|]; [apply gx_assoc_lookup_eq|reflexivity]. Qed.
+Lemma gx_map_lookup_eq (conf : sql_config) (name : bytes) :
+  gx_map_lookup (rep_cmap (q_coerce conf)) name = option_map (option_map rep_ck) (coerce_entry conf name).
+Proof. unfold coerce_entry. destruct (q_coerce conf) as [l|]; [apply gx_assoc_lookup_eq|reflexivity]. Qed.
 
-(* ---- the allocation loop: for _, name := range names { col := &Column{..}; .. columns = append(columns, col) } *)
-Lemma gx_alloc_eq (query : bytes) (conf : sql_config) : forall (names : list bytes) (cols : list gx_Column),
-  gx_ReadSQL_loop1 names (rep_conf query conf) cols = Ok (cols ++ map rep_col (alloc_columns names conf)).
+(* ---- the allocation loop: for _, name := range names { col := &Column{..}; .. if fn == nil { return .. error };
+   .. columns = append(columns, col) }: it returns the error exactly where the model's alloc_columns fails (a
+   column of the result set bound to an entry without function), else it appends the model's columns *)
+Lemma gx_alloc_eq (query : bytes) (conf : sql_config) (colNames : list bytes) : forall (names : list bytes) (cols : list gx_Column),
+  gx_ReadSQL_loop1 names (rep_conf query conf) cols colNames
+  = Ok (match alloc_columns names conf with
+        | Ok cs => gx_fall (cols ++ map rep_col cs)
+        | _ => gx_ret (None, colNames, gx_err)
+        end).
 Proof.
   assert (Hm : gx_SQLConfig_CoerceMap (rep_conf query conf) = rep_cmap (q_coerce conf)) by reflexivity.
   assert (Hp : gx_SQLConfig_Precision (rep_conf query conf) = q_precision conf) by reflexivity.
   generalize dependent (rep_conf query conf). intros cf Hm Hp.
   induction names as [|n names IH]; intros cols; cbn [gx_ReadSQL_loop1 alloc_columns map].
   - rewrite app_nil_r. reflexivity.
-  - fold (alloc_columns names conf). rewrite Hm, Hp.
-    destruct (q_coerce conf) as [m|] eqn:Em.
+  - rewrite Hm, Hp. rewrite gx_map_lookup_eq.
+    assert (Hstep : forall co,
+      gx_ReadSQL_loop1 names cf (cols ++ [rep_col (new_column (q_precision conf) co)]) colNames
+      = Ok (match (do cs <- alloc_columns names conf; Ok (new_column (q_precision conf) co :: cs)) with
+            | Ok cs => gx_fall (cols ++ map rep_col cs)
+            | _ => gx_ret (None, colNames, gx_err)
+            end)).
+    { intros co. rewrite IH. destruct (alloc_columns names conf) as [cs| |]; cbn [obind map]; try reflexivity.
+      rewrite <- app_assoc. reflexivity. }
+    unfold coerce_entry. destruct (q_coerce conf) as [m|] eqn:Em.
     + cbn [rep_cmap option_map gx_opt_isnil negb].
-      change (Some (map (fun p => (fst p, rep_ck (snd p))) m)) with (rep_cmap (Some m)).
-      rewrite gx_map_lookup_eq.
-      destruct (coerce_lookup m n) as [k|]; cbn [option_map gx_opt_isnil negb gx_make_closure obind];
-        rewrite IH; rewrite <- app_assoc; reflexivity.
-    + cbn [rep_cmap option_map gx_opt_isnil negb]. rewrite IH. rewrite <- app_assoc. reflexivity.
+      destruct (coerce_find m n) as [[k|]|]; cbn [option_map gx_opt_or gx_opt_isnil negb gx_make_closure obind].
+      * exact (Hstep (Some k)).
+      * reflexivity.
+      * exact (Hstep None).
+    + cbn [rep_cmap option_map gx_opt_isnil negb]. exact (Hstep None).
 Qed.
 
 (* ---- the block "ensure any column in the coercion map exists": as written it looks at colNames BEFORE
@@ -396,20 +411,34 @@ Proof.
   destruct (bytes_eqb name cn); reflexivity.
 Qed.
 
-Lemma gx_check_eq (colNames : list bytes) : forall (m : list (bytes * coerce_kind)),
-  gx_ReadSQL_loop3 (map fst (map (fun p => (fst p, rep_ck (snd p))) m)) colNames
+Lemma gx_check_eq (colNames : list bytes) : forall (m : list (bytes * option coerce_kind)),
+  gx_ReadSQL_loop3 (map fst (map rep_centry m)) colNames
   = Ok (if coerce_check m colNames then gx_fall tt else gx_ret (None, colNames, gx_err)).
 Proof.
   induction m as [|[n k] m IH]; [reflexivity|].
-  cbn [map fst snd gx_ReadSQL_loop3]. rewrite gx_check_inner_eq. cbn [obind].
+  cbn [map fst snd rep_centry gx_ReadSQL_loop3]. rewrite gx_check_inner_eq. cbn [obind].
   unfold coerce_check in *. cbn [forallb fst]. unfold coerce_check_inner at 1.
   destruct colNames as [|cn rest].
   - cbn [andb]. exact IH.
   - destruct (bytes_eqb n cn); cbn [andb]; [exact IH|reflexivity].
 Qed.
 
-Lemma alloc_nulls names conf : Forall (fun c => (c_nulls c <= 0)%nat) (alloc_columns names conf).
-Proof. unfold alloc_columns. apply Forall_forall. intros c Hin. apply in_map_iff in Hin as [n [<- _]]. cbn. lia. Qed.
+Lemma alloc_nulls conf : forall names cs,
+  alloc_columns names conf = Ok cs -> Forall (fun c => (c_nulls c <= 0)%nat) cs.
+Proof.
+  induction names as [|n names IH]; intros cs H; cbn [alloc_columns] in H.
+  - inversion H; subst. constructor.
+  - destruct (coerce_entry conf n) as [[k|]|]; try discriminate;
+      (destruct (alloc_columns names conf) as [cs'| |]; cbn [obind] in H; try discriminate;
+       inversion H; subst; constructor; [cbn; lia|apply IH; reflexivity]).
+Qed.
+
+Lemma alloc_not_panic conf : forall names, alloc_columns names conf <> Panic.
+Proof.
+  induction names as [|n names IH]; cbn [alloc_columns]; [discriminate|].
+  destruct (coerce_entry conf n) as [[k|]|]; try discriminate;
+    (destruct (alloc_columns names conf); cbn [obind]; try discriminate; congruence).
+Qed.
 
 Section WithFloatFunctions2.
 Variable fixed : N -> Z -> N.
@@ -608,19 +637,23 @@ Proof.
   - cbn [map gx_isnil] in EL. unfold m_columns at 1 in EL. cbn [gx_error_isnil negb] in EL.
     rewrite gx_alloc_eq in EL. cbn [app obind] in EL.
     unfold read_row.
-    assert (HFa : Forall (fun c => (c_nulls c <= k)%nat) (alloc_columns names conf)).
-    { eapply Forall_impl; [|apply alloc_nulls]. cbn. intros c Hc. lia. }
+    pose proof (alloc_not_panic conf names) as Hanp.
+    destruct (alloc_columns names conf) as [acs| |] eqn:Ea; [| |congruence].
+    2:{ right. cbn [obind]. split; [reflexivity|]. exists colNames. rewrite EL. reflexivity. }
+    cbn [obind].
+    assert (HFa : Forall (fun c => (c_nulls c <= k)%nat) acs).
+    { eapply Forall_impl; [|exact (alloc_nulls conf names acs Ea)]. cbn. intros c Hc. lia. }
     change (gx_SQLConfig_CoerceMap cf) with (rep_cmap (q_coerce conf)) in EL.
     destruct (q_coerce conf) as [m|] eqn:Em.
     + cbn [rep_cmap option_map gx_opt_isnil negb gx_map_keys] in EL.
       rewrite gx_check_eq in EL. cbn [obind] in EL.
       destruct (coerce_check m colNames) eqn:Ec.
-      * cbn [obind]. destruct (Hscan (alloc_columns names conf) names HFa) as [[cs' [Hs [Hn He]]]|[Hs He]].
+      * cbn [obind]. destruct (Hscan acs names HFa) as [[cs' [Hs [Hn He]]]|[Hs He]].
         -- left. exists cs', names. rewrite Hs. cbn [obind]. split; [reflexivity|]. split; [exact Hn|]. rewrite EL. exact He.
         -- right. rewrite Hs. cbn [obind]. split; [reflexivity|]. exists names. rewrite EL. exact He.
       * right. cbn [obind]. split; [reflexivity|]. exists colNames. rewrite EL. reflexivity.
     + cbn [rep_cmap option_map gx_opt_isnil negb obind] in EL. cbn [obind].
-      destruct (Hscan (alloc_columns names conf) names HFa) as [[cs' [Hs [Hn He]]]|[Hs He]].
+      destruct (Hscan acs names HFa) as [[cs' [Hs [Hn He]]]|[Hs He]].
       * left. exists cs', names. rewrite Hs. cbn [obind]. split; [reflexivity|]. split; [exact Hn|]. rewrite EL. exact He.
       * right. rewrite Hs. cbn [obind]. split; [reflexivity|]. exists names. rewrite EL. exact He.
   - cbn [map gx_isnil] in EL. unfold read_row. cbn [obind].
@@ -756,4 +789,28 @@ Lemma gx_ReadSQL_columns_error fixed pf (query : bytes) (conf : sql_config) (nam
 Proof.
   intros Hhit. unfold gx_ReadSQL, m_start. cbn [gx_ReadSQL_loop4]. unfold m_next at 1. rewrite Hhit.
   cbn [gx_isnil]. unfold m_columns at 1. cbn [gx_error_isnil negb obind]. reflexivity.
+Qed.
+
+(* the repaired defect F26: a column of the result set bound, in the coercion map, to an entry WITHOUT function
+   (a nil CoerceFunc stored by config/sql.Coerce): the generated ReadSQL answers the error on the first row — it
+   does not reach fn(col), which would be Panic (gx_make_closure None) *)
+Lemma alloc_columns_nil conf n : forall names,
+  In n names -> coerce_entry conf n = Some None -> alloc_columns names conf = Fail.
+Proof.
+  induction names as [|x names IH]; intros Hin He; [contradiction|]. cbn [alloc_columns].
+  destruct Hin as [->|Hin].
+  - rewrite He. reflexivity.
+  - rewrite (IH Hin He). destruct (coerce_entry conf x) as [[k|]|]; reflexivity.
+Qed.
+
+Lemma gx_ReadSQL_nil_coerce fixed pf (query : bytes) (conf : sql_config) (names : list bytes) (n : bytes)
+      (row : list dval) (rest : list (list dval)) (fa : option nat) (fuel : nat) :
+  m_hit fa 0 = false -> In n names -> coerce_entry conf n = Some None ->
+  gx_ReadSQL (m_next fa) (m_columns names false) m_values (m_err fa) fixed pf (S (S fuel))
+             (m_start (row :: rest)) (rep_conf query conf)
+  = Ok (None, [], gx_err).
+Proof.
+  intros Hhit Hin He. unfold gx_ReadSQL, m_start. cbn [gx_ReadSQL_loop4]. unfold m_next at 1. rewrite Hhit.
+  cbn [gx_isnil]. unfold m_columns at 1. cbn [gx_error_isnil negb].
+  rewrite gx_alloc_eq. rewrite (alloc_columns_nil conf n names Hin He). reflexivity.
 Qed.
